@@ -38,7 +38,7 @@ Lemma scan_stok t rest pos pw :
     | None => map Chr (list_ascii_of_string (stok_text t))
     end) ++ scan (pos + String.length (stok_text t)) 0 (last_word pw (stok_text t)) rest)%list.
 Proof.
-  destruct t as [g|n [b|]|par w1 n w2 [b|]|n ws|k|vb]; cbn [stok_ok stok_text stok_match idx_text idx_group idx_len]; intros H.
+  destruct t as [g|n [b|]|par w1 n w2 [b|]|n ws|k|vb|tail]; cbn [stok_ok stok_text stok_match idx_text idx_group idx_len]; intros H.
   - (* gap *) apply scan_inert, H.
   - (* NAME[body] *)
     apply andb_true_iff in H as [H Hx]. apply andb_true_iff in H as [Hi Hk].
@@ -93,6 +93,15 @@ Proof.
     apply scan_tok; [discriminate| |].
     + cbn [append]. rewrite app_assoc_s. cbn [append]. apply (match_here_verbatim pw c b rest Hc Hq Hn).
     + cbn [mlen String.length]. rewrite length_app_s. cbn [String.length]. lia.
+  - (* < / <= *)
+    apply andb_true_iff in H as [Ht Hf]. cbn [append].
+    assert (Hm : match_here pw (String "<" (tail ++ rest)) = None).
+    { apply match_here_lt. unfold lt_free in Hf. destruct (try_bracketed "<" ">" KError (String "<" (tail ++ rest))); [discriminate|reflexivity]. }
+    rewrite (scan_chr pos pw "<" (tail ++ rest) Hm).
+    apply orb_true_iff in Ht as [E|E]; apply String.eqb_eq in E; subst tail.
+    + cbn [append list_ascii_of_string map app String.length last_word]. replace (pos + 1) with (S pos) by lia. reflexivity.
+    + rewrite (scan_inert "=" (S pos) (is_word "<") rest eq_refl).
+      cbn [append list_ascii_of_string map app String.length last_word]. replace (S pos + 1) with (pos + 2) by lia. reflexivity.
 Qed.
 
 (* ---------- scan_render ---------- *)
